@@ -88,6 +88,69 @@ theorem hash_eq_iff (H : String → UInt64) (t1 t2 : Tree) (h1 : wfTree t1 = tru
     opHash H .repaired t1 = opHash H .repaired t2 ↔ t1 = t2 :=
   ⟨fun h => keyString_injective t1 t2 h1 h2 (hH h), hash_congr H _ t1 t2⟩
 
+/-! ### the clause "projections that differ only in the domain size" -/
+
+theorem projection_domain_size_distinct (p1 p2 : Proj) (h : p1.dsize ≠ p2.dsize) :
+    key .repaired (.leaf (.proj p1)) ≠ key .repaired (.leaf (.proj p2)) := by
+  intro he
+  have := key_injective _ _ he
+  simp only [Tree.leaf.injEq, Leaf.proj.injEq] at this
+  exact h (by rw [this])
+
+/-- … also as strings -/
+theorem projection_domain_size_distinct_string (p1 p2 : Proj) (h1 : wfProj p1 = true) (h2 : wfProj p2 = true)
+    (h : p1.dsize ≠ p2.dsize) :
+    render (key .repaired (.leaf (.proj p1))) ≠ render (key .repaired (.leaf (.proj p2))) := by
+  intro he
+  have := keyString_injective _ _ (by simpa [wfTree, wfLeaf] using h1) (by simpa [wfTree, wfLeaf] using h2) he
+  simp only [Tree.leaf.injEq, Leaf.proj.injEq] at this
+  exact h (by rw [this])
+
+example : key .repaired (.leaf (.proj ⟨cl!"r", cl!"d", 5, 3, false⟩)) ≠ key .repaired (.leaf (.proj ⟨cl!"r", cl!"d", 7, 3, false⟩)) :=
+  projection_domain_size_distinct _ _ (by decide)
+
+/-! ### previous_timestep / previous_iteration and the cached key -/
+
+/-- shifting a tree that contains a leaf reacting to the shift changes its key
+    (`p` vs `p.previous_timestep()`, any number of steps, anywhere in the tree) -/
+theorem shift_changes_key (time : Bool) (k : Nat) (t t' : Tree) (h : shiftTree time k t = some t')
+    (hd : t.dependsOn time = true) : key .repaired t' ≠ key .repaired t :=
+  fun he => shiftTree_ne time k t t' h hd (key_injective _ _ he)
+
+/-- … and leaves every other tree, hence its key, unchanged -/
+theorem shift_keeps_independent (time : Bool) (k : Nat) (t : Tree) (hd : t.dependsOn time = false) :
+    shiftTree time k t = some t := shiftTree_nodep time k t hd
+
+/-- Cached keys: with the resets in `previous_timestep` / `previous_iteration` /
+    `_get_previous_time_or_iterate` and in `Scalar.set_value`, EVERY history of `_key()`, shift and
+    `set_value` calls on a fresh operator observes exactly the keys of the trees it represents at the time
+    (and raises exactly when the shift of the tree is illegal). -/
+theorem history_keys_correct (c : Cfg) (t : Tree) (hs : List HOp) :
+    (Obj.run c ⟨true, true⟩ ⟨t, none⟩ hs).map (·.2) = (specRun c t hs).map (·.2) := by
+  have := run_refines c hs ⟨t, none⟩ (Or.inl rfl)
+  cases hr : Obj.run c ⟨true, true⟩ ⟨t, none⟩ hs <;> cases hsr : specRun c t hs <;> simp [hr, hsr] at this ⊢
+  exact this.2.1
+
+private def pv : Tree := .leaf (.var cl!"p" .subdomains 0 (-1) (-1))
+
+example : (Obj.run .repaired ⟨true, true⟩ ⟨pv, none⟩ [.key, .shift true 1, .key, .shift true 2, .key]).map (·.2) =
+    some [key .repaired pv, key .repaired (.leaf (.var cl!"p" .subdomains 0 0 (-1))),
+          key .repaired (.leaf (.var cl!"p" .subdomains 0 2 (-1)))] := by decide
+
+/-- without the reset in the shift (`copy.copy` keeps `_cached_key`; the defect re-introduced by a seeded
+    change) "hash x, then x.previous_timestep()" observes the key of `x` for the shifted operator -/
+theorem stale_key_without_shift_reset :
+    (Obj.run .repaired ⟨false, true⟩ ⟨pv, none⟩ [.key, .shift true 1, .key]).map (·.2) ≠
+      (specRun .repaired pv [.key, .shift true 1, .key]).map (·.2) := by decide
+
+/-- without the reset in `Scalar.set_value` (open finding `stale-key:scalar-set-value`) -/
+theorem stale_key_without_set_reset :
+    (Obj.run .repaired ⟨true, false⟩ ⟨.leaf (.scalar cl!"1.0"), none⟩ [.key, .set cl!"2.0", .key]).map (·.2) ≠
+      (specRun .repaired (.leaf (.scalar cl!"1.0")) [.key, .set cl!"2.0", .key]).map (·.2) := by decide
+
+/-- a time shift of an operator at a previous iterate raises -/
+example : shiftTree true 1 (.leaf (.var cl!"p" .subdomains 0 (-1) 0)) = none := by decide
+
 /-! ### each repair is necessary: collisions of the key with one repair missing
 
 The witnesses are the minimised pairs of `corpus/C45/` (names and digests shortened). -/
@@ -120,7 +183,7 @@ theorem surrogate_name_collides :
 
 /-- F10(3b) `f(g(a), b)` and `f(g(a, b))`: no arity in the key, the blank-joined children are ambiguous -/
 theorem evaluate_arity_collides :
-    ∃ t1 t2 : Tree, t1 ≠ t2 ∧ key { Cfg.repaired with evalFn := false } t1 = key { Cfg.repaired with evalFn := false } t2 :=
+    ∃ t1 t2 : Tree, t1 ≠ t2 ∧ key { Cfg.repaired with evalArity := false } t1 = key { Cfg.repaired with evalArity := false } t2 :=
   ⟨.eval cl!"f" (some 1) (.cons (.eval cl!"f" (some 1) (.cons (v (-1) (-1)) .nil)) (.cons (v 0 (-1)) .nil)),
    .eval cl!"f" (some 1) (.cons (.eval cl!"f" (some 1) (.cons (v (-1) (-1)) (.cons (v 0 (-1)) .nil))) .nil),
    by decide, by decide⟩
